@@ -102,14 +102,19 @@ class TS:
     def svar(self, n, like, k):
         return self.mk(like, '%s@S%d' % (n, k))
 
-    def unroll(self, depth, normal_form=True, stutter_choice=None, extra_step=None):
+    def unroll(self, depth, normal_form=True, stutter_choice=None, extra_step=None, init_state=None):
         """returns (constraints, choices)"""
         cons = []
-        # initial state: everything zero except the environment constants (Verdict)
+        # initial state: everything zero except the environment constants (Verdict); or a given (waypoint) state
         for n, v in self.state_leaves:
+            sv = self.svar(n, v, 0)
+            if init_state is not None:
+                if n in init_state:
+                    x = init_state[n]
+                    cons.append(sv == (z3.BoolVal(bool(x)) if z3.is_bool(v) else z3.BitVecVal(x, v.size())))
+                continue
             if '.Verdict' in n:
                 continue
-            sv = self.svar(n, v, 0)
             cons.append(sv == (z3.BoolVal(False) if z3.is_bool(v) else z3.BitVecVal(0, v.size())))
         # the whole step as ONE formula over (pre leaves, params, choice, defs, next-state placeholders):
         # a single substitution per unrolled step
@@ -156,11 +161,28 @@ def make_solver(mode='tactic'):
 
 
 def bmc_query(ts, depth, bad_names, stutter_choice, timeout_s=1500, extra_init=None, extra_step=None, any_step=True, mode='tactic',
-              stuck=None):
+              stuck=None, seed=None):
     """is some state satisfying one of the named predicates reachable within `depth` steps?
     returns dict(result, seconds, schedule, params, verdict, step)"""
     t0 = time.time()
-    cons, choices = ts.unroll(depth, True, stutter_choice, extra_step)
+    prefix = None
+    init_state = None
+    if seed is not None:
+        # waypoint: first find a schedule to a state satisfying the seed predicate, then explore from that concrete
+        # state (verdicts of transactions that do not exist yet stay free)
+        prefix = bmc_query(ts, seed['depth'], [seed['pred']], stutter_choice, timeout_s)
+        if prefix['result'] != 'sat':
+            return {'result': 'seed-' + prefix['result'], 'build_s': prefix.get('build_s', 0), 'solve_s': prefix.get('solve_s', 0),
+                    'depth': depth, 'preds': list(bad_names), 'seed': seed}
+        hitk = prefix['hit'][1]
+        init_state = dict(prefix['states'][hitk])
+        nx_exists = {n.split('.Txs[')[1].split(']')[0] for n, v in init_state.items() if '.Txs[' in n and n.endswith('.Exists#0') and v}
+        for n in list(init_state):
+            if '.Verdict' in n:
+                x = n.split(']')[-2].split('[')[-1]
+                if x not in nx_exists:
+                    del init_state[n]
+    cons, choices = ts.unroll(depth, True, stutter_choice, extra_step, init_state)
     s = make_solver(mode)
     s.set('timeout', int(timeout_s * 1000)) if mode != 'tactic' else None
     for c in cons:
@@ -224,6 +246,7 @@ def bmc_query(ts, depth, bad_names, stutter_choice, timeout_s=1500, extra_init=N
         res['params'] = params
         s0 = ts.state_value(m, 0)
         res['init'] = {n: v for n, v in s0.items() if v not in (0, False)}
+        res['states'] = [ts.state_value(m, k) for k in range(depth + 1)]
         hit = None
         for k in steps:
             for b in bad_names:
@@ -237,6 +260,21 @@ def bmc_query(ts, depth, bad_names, stutter_choice, timeout_s=1500, extra_init=N
             if hit:
                 break
         res['hit'] = hit
+        if prefix is not None:
+            # splice the waypoint prefix in front (schedule, parameters, initial verdicts)
+            hk = prefix['hit'][1]
+            res['schedule'] = prefix['schedule'][:hk] + res['schedule']
+            res['params'] = prefix['params'][:hk] + res['params']
+            if hit:
+                res['hit'] = (hit[0], hit[1] + hk)
+            init = dict(prefix.get('init', {}))
+            for n, v in res['init'].items():
+                if '.Verdict' in n:
+                    init[n] = v
+            res['init'] = {n: v for n, v in init.items() if '.Verdict' in n}
+            res['seed_steps'] = hk
+    if 'states' in res and seed is None and not any(b.startswith('reach') or True for b in []):
+        pass
     return res
 
 
@@ -250,7 +288,8 @@ def replay_inputs(res, upto=None):
             base = name.split('#')[0]
             inp['%s#%d' % (base, k)] = v
     for name, v in res.get('init', {}).items():
-        inp[name] = v
+        if '.Verdict' in name:
+            inp[name] = v
     return inp
 
 
@@ -275,8 +314,12 @@ TESTDIR = 'pkg/controller/v2/transaction'
 def _bmc_worker(args):
     key, depth, preds, stutter, timeout_s, kind = args[:6]
     stuck = args[6] if len(args) > 6 else None
+    seed = args[7] if len(args) > 7 else None
     try:
-        r = bmc_query(_TS[key], depth, preds, stutter, timeout_s, stuck=stuck)
+        r = bmc_query(_TS[key], depth, preds, stutter, timeout_s, stuck=stuck, seed=seed)
+        r.pop('states', None)
+        if seed:
+            r['seed_pred'] = seed['pred']
     except Exception as e:
         r = {'result': 'error', 'error': '%s: %s' % (type(e).__name__, e), 'trace': traceback.format_exc()[-2000:],
              'depth': depth, 'preds': list(preds)}
@@ -355,7 +398,8 @@ def run_protocol(ctx, driver, name, cfg, queries, contracts=None, cuts=True, unw
             nrec = ch['cfg'] if not cfg.get('sync') else ch['append']
             stuck = {'choices': list(range(0, nrec)), 'params': {'p.CrashAfter': -1, 'p.DevCode': 0},
                      'ignore': ('.Crashes', '.Faults')}
-        jobs.append((key, depth, preds, ch['stutter'], timeout_s, kind, stuck))
+        seed = q[3] if len(q) > 3 else None
+        jobs.append((key, depth, preds, ch['stutter'], timeout_s, 'bad' if kind == 'seeded' else kind, stuck, seed))
     # a contract that fails from an arbitrary state is only a violation if the failing step is reachable:
     # ask the bounded model checker for a schedule from the initial state that ends in the failing step
     failing = sorted({ob['label'] for ob in res['obligations'] if ob['result'] == 'sat' and ob['label'].split(':')[0] not in ('unwind', 'bound')})
@@ -404,7 +448,7 @@ def post_protocol(ctx, driver, res, replay_budget=3):
         o['status'] = 'cti'
     nrep = 0
     for q in sorted(res['queries'], key=lambda q: (q['kind'], q['depth'])):
-        label = 'bmc:%s:k=%d:%s' % (q['kind'], q['depth'], ','.join(q['preds']))
+        label = 'bmc:%s:k=%d%s:%s' % (q['kind'], q['depth'], ('+seed(%s)' % q['seed_pred']) if q.get('seed_pred') else '', ','.join(q['preds']))
         if q['kind'] == 'reach':
             c = {'label': label, 'result': q['result'], 'model': None, 's': q.get('solve_s', 0) + q.get('build_s', 0)}
             out['covers'].append(c)
